@@ -35,7 +35,7 @@ ALIAS_FLOORS = [
 
 def floors(ctx):
     q = ctx.tier == "quick"
-    f = {"evaluations": 20000 if q else 200000, "ops_raised": 200, "histories": 1000}
+    f = {"evaluations": 20000 if q else 200000, "ops_raised": 200, "histories": 1000, "bursts": 500}
     for a in ALIAS_FLOORS:
         f[a] = 1
     return f
